@@ -1327,7 +1327,12 @@ class FileSet:
                 pass
 
     def _check_placeholders(self, attr, start, end):
-        attr_start, attr_end = self._to_datetime_args(attr)
+        try:
+            attr_start, attr_end = self._to_datetime_args(attr)
+        except ValueError:
+            # The directory names a date that does not exist (e.g. day 366 of
+            # a year with 365 days), it cannot hold files of this fileset:
+            return False
         attr_end = {**attr_start, **attr_end}
         year = attr_start.get("year", None)
         if year is not None:
